@@ -1,7 +1,9 @@
 #!/bin/bash
 # matrix.sh: every check on /repo with two seeds, and every seeded mutation against the checks expected to catch it.
 # Mutations are applied to scratch worktrees of /repo (never to /repo itself).
-cd /verif
+cd "$(dirname "$0")/.."   # works from a snapshot copy of /verif too
+V=$(pwd)
+SEEDED_SEEDS=${MATRIX_SEEDED_SEEDS:-"1 2"}
 out=${1:-/tmp/matrix.log}
 : > $out
 for seed in 1 2; do
@@ -11,12 +13,12 @@ for seed in 1 2; do
     echo "repo $c seed=$seed rc=$rc viol=$(grep -c VIOLATION /tmp/matrix-$c-$seed.out) known=$(grep -c KNOWN-FINDING /tmp/matrix-$c-$seed.out) wall=$(( $(date +%s) - s ))s" >> $out
   done
 done
-for d in /verif/seeded/S*; do
+for d in $V/seeded/S*; do
   id=$(basename $d)
   wt=/tmp/seedwt-$id
   git -C /repo worktree add -q --detach $wt HEAD && git -C $wt apply $d/patch.diff || { echo "seeded $id: patch does not apply" >> $out; continue; }
   for c in $(python3 -c "import json;print(' '.join(json.load(open('$d/meta.json'))['caught_by_quick']))"); do
-    for seed in 1 2; do
+    for seed in $SEEDED_SEEDS; do
       VERIF_SEED=$seed VERIF_REPO=$wt ./vcheck $c --tier quick > /tmp/matrix-$id-$c-$seed.out 2>&1; rc=$?
       echo "seeded $id $c seed=$seed rc=$rc viol=$(grep -c VIOLATION /tmp/matrix-$id-$c-$seed.out)" >> $out
     done
